@@ -2,6 +2,7 @@
     the run-level consequences by the invariant lifting of Run/RunInv.v and Match/AdjProofs.v. *)
 From Coq Require Import ZArith List Bool Lia.
 From V Require Import Csv.CsvModel Data.DataModel Scan.ScanModel Run.RunLoop Run.RunInv Match.Adjudicate Match.AdjProofs Match.Core Match.CoreProofs.
+From V Require Match.Assign Match.AssignProofs.
 Import ListNotations.
 Open Scope Z_scope.
 
@@ -58,6 +59,7 @@ Definition writes (g : agg) : option Z :=
   | Tally i | TallyS i => Some (100 + Z.of_nat i) | TallyC _ _ => Some 99 | First nm _ | Every nm _ _ | Subtotal nm _ _ | AssignK nm _ _ => Some nm
   | Counter _ _ | Sum _ _ | CounterE _ _ | CounterEq _ _ _ => None
   | CountIf _ nm _ => Some nm
+  | AssignQ _ _ _ => None
   end.
 Definition comp_agg (c : comp) : option agg := match c with CAgg g | CAct (Agg g) | CWhen _ (Agg g) => Some g | _ => None end.
 (** the dictionary [nm] belongs to first(): no other function or assignment of the csvpath writes it *)
@@ -92,7 +94,7 @@ Section Agg.
   Lemma do_agg_keeps_first s l g nm key z : (match g with First _ _ => True | _ => writes g <> Some nm end) ->
     dget (x mx s) nm key = Some (VI z) -> dget (x mx (fst (do_agg q blanks AND s l g))) nm key = Some (VI z).
   Proof.
-    intros Hw H. destruct g as [i|nm' i|nm' i n|nm' k|nm' e|nm' i e|nm' key' e|i|i j|nm' e|nm' k n|v' nm' c']; cbn [do_agg writes] in *.
+    intros Hw H. destruct g as [i|nm' i|nm' i n|nm' k|nm' e|nm' i e|nm' key' e|i|i j|nm' e|nm' k n|v' nm' c'|qs' v' e']; cbn [do_agg writes] in *.
     - cbn [fst x with_mx]. rewrite dget_dset_other_dict; [exact H|]. intros E. apply Hw. rewrite E. reflexivity.
     - destruct (Z.eq_dec nm' nm) as [->|Hn].
       + destruct (dget (x mx s) nm (hdr_key l i)) as [[z'|z'|t|]|] eqn:E; cbn [fst x with_mx]; try exact H.
@@ -109,6 +111,7 @@ Section Agg.
     - cbn [fst x with_mx]. exact H.
     - cbn [fst x with_mx]. exact H.
     - cbn [fst x with_mx]. rewrite dget_vars_stacks, dget_dset_other_dict; [exact H|]. intros E. apply Hw. rewrite E. reflexivity.
+    - destruct (Assign.do_assignment _ _ _ _) as [[[|] vote]|]; cbn [fst x with_mx]; exact H.
   Qed.
 
   Lemma eval_keeps_first c s l nm key z : first_owns nm c ->
@@ -239,6 +242,26 @@ Section Steps.
       intros H. rewrite (blank_parses_none t H). reflexivity.
     - destruct (match lookup vn (dicts (x mx s)) with Some d => ulookup key d | None => None end) as [[z|z|t|]|]; cbn [none_like fst]; try discriminate; try reflexivity.
       intros H. rewrite (blank_parses_none t H). reflexivity.
+  Qed.
+
+  (* @v.<qualifiers> = e (no onmatch): the variable is written, and the component votes, exactly as the documented table of
+     Match/Assign.v says (Assign.write / Assign.vote, theorem assignment_table of C14), whenever old and new value can be compared *)
+  Theorem assign_q_step s l qs v e :
+    let cur := aval_of (match lookup v (vars (x mx s)) with Some c0 => c0 | None => VNone end) in
+    let y := aval_of (nvalue blanks s l e) in
+    let r := do_agg q blanks AND s l (AssignQ qs v e) in
+    Assign.comparable cur y = true ->
+    snd r = Assign.vote qs true cur y /\
+    (Assign.write qs true cur y = true -> lookup v (vars (x mx (fst r))) = Some (nvalue blanks s l e)) /\
+    (Assign.write qs true cur y = false -> fst r = s) /\
+    (forall w, v <> w -> lookup w (vars (x mx (fst r))) = lookup w (vars (x mx s))).
+  Proof.
+    cbn zeta. intros Hc. cbn [do_agg].
+    destruct (AssignProofs.assignment_total qs true _ _ Hc) as (w & vt & E). rewrite E.
+    destruct (AssignProofs.assignment_table qs true _ _ w vt E) as [Hw Hv]. subst w vt.
+    destruct (Assign.write qs true _ _) eqn:Ew; cbn [fst snd x with_mx vars].
+    - split; [reflexivity|]. split; [intros _; apply lookup_update_same|]. split; [discriminate|]. intros w Hn. apply lookup_update_other. exact Hn.
+    - split; [reflexivity|]. split; [discriminate|]. split; [reflexivity|]. reflexivity.
   Qed.
 
   Theorem sum_step s l nm e :
